@@ -46,10 +46,11 @@ const (
 	FailAfter          // executed (committed), error delivered
 	SendRefuse         // transport answered "not delivered" (success=false)
 	SendError          // transport answered with an error
+	CommitFail         // every statement succeeds but the COMMIT fails (SQLite rolls back)
 )
 
 func (o Outcome) String() string {
-	return [...]string{"ok", "fail-before", "fail-after", "send-refused", "send-error"}[o]
+	return [...]string{"ok", "fail-before", "fail-after", "send-refused", "send-error", "commit-fails"}[o]
 }
 
 var BackgroundNames = []string{"TimeoutPromises", "SchedulePromises", "TimeoutLocks", "EnqueueTasks", "TimeoutTasks"}
@@ -64,6 +65,7 @@ type Config struct {
 	StoreReset    bool
 	NoBackground  bool
 	Image         *Image // database image to start from (in-memory databases only)
+	CommitFaults  bool   // install the machinery that can make a COMMIT fail (deferred foreign key)
 }
 
 func DefaultConfig() Config {
@@ -368,6 +370,37 @@ func New(cfg Config, monitors ...Monitor) *World {
 	return w
 }
 
+// installCommitFaults: a COMMIT can be made to fail without touching the code under
+// test. A trigger on every table inserts, while armed, a row into a table with a
+// DEFERRED foreign key that cannot be satisfied: every statement of the transaction
+// succeeds and reports its rows, the constraint is only checked at COMMIT, which
+// fails, and SQLite rolls the transaction back.
+func (w *World) installCommitFaults() {
+	stmts := []string{
+		`PRAGMA foreign_keys = ON`,
+		`CREATE TABLE IF NOT EXISTS verif_arm (armed INTEGER)`,
+		`INSERT INTO verif_arm SELECT 0 WHERE NOT EXISTS (SELECT 1 FROM verif_arm)`,
+		`CREATE TABLE IF NOT EXISTS verif_fk_parent (id TEXT PRIMARY KEY)`,
+		`CREATE TABLE IF NOT EXISTS verif_fk (x TEXT REFERENCES verif_fk_parent(id) DEFERRABLE INITIALLY DEFERRED)`,
+	}
+	for _, t := range []string{"promises", "callbacks", "schedules", "locks", "tasks"} {
+		for _, op := range []string{"INSERT", "UPDATE", "DELETE"} {
+			stmts = append(stmts, fmt.Sprintf(`CREATE TRIGGER IF NOT EXISTS verif_cf_%s_%s AFTER %s ON %s WHEN (SELECT armed FROM verif_arm) = 1 BEGIN INSERT INTO verif_fk(x) VALUES ('missing'); END`, t, op, op, t))
+		}
+	}
+	for _, q := range stmts {
+		if _, err := w.db.Exec(q); err != nil {
+			panic(fmt.Sprintf("verif: commit-fault machinery: %v (%s)", err, q))
+		}
+	}
+}
+
+func (w *World) arm(on int) {
+	if _, err := w.db.Exec(`UPDATE verif_arm SET armed = ?`, on); err != nil {
+		panic(fmt.Sprintf("verif: arm: %v", err))
+	}
+}
+
 // Snapshot returns an image of the database (SQLite serialize).
 func (w *World) Snapshot() []byte {
 	var out []byte
@@ -500,6 +533,9 @@ func (w *World) boot(img *Image) {
 	}
 	if err := st.Start(nil); err != nil {
 		panic(fmt.Sprintf("verif: store start: %v", err))
+	}
+	if w.Cfg.CommitFaults {
+		w.installCommitFaults()
 	}
 	w.lastChanges = -1
 
@@ -778,7 +814,13 @@ func (w *World) ExecBatch(idxs []int, o Outcome) {
 		ev.SubClocks = append(ev.SubClocks, p.Clock)
 		ev.Subs = append(ev.Subs, p.SQE.Submission)
 	}
+	if o == CommitFail {
+		w.arm(1)
+	}
 	cqes := w.store.Process(sqes)
+	if o == CommitFail {
+		w.arm(0)
+	}
 	ev.After = w.Dump()
 	if len(cqes) != len(sqes) {
 		panic("verif: store.Process returned a different number of completions")
@@ -788,9 +830,10 @@ func (w *World) ExecBatch(idxs []int, o Outcome) {
 			ev.Err = c.Error
 		}
 	}
-	if ev.Err != nil {
-		// the explorer injects failures by replacing completions, never by making SQL
-		// fail: an error out of the store itself is never silently explored past
+	if ev.Err != nil && o != CommitFail {
+		// (other than the injected COMMIT failure) the explorer injects failures by
+		// replacing completions, never by making SQL fail: an error out of the store
+		// itself is never silently explored past
 		w.Violate("store-error:"+firstLineOf(ev.Err.Error()), "the store failed a transaction on its own (%v): %v", labels, ev.Err)
 	}
 	if ev.Err == nil {
